@@ -18,9 +18,14 @@ SLICES_QUICK = [("factor", 4, 1), ("skip", 4, 3), ("restore", 4, 1), ("counted",
 SLICES_THOROUGH = [("factor", 8, 1), ("skip", 12, 4), ("restore", 8, 1), ("counted", 8, 4), ("stack", 12, 4), ("ws", 12, 3), ("core", 12, 4)]
 
 
+XSLICES_QUICK = [("xrestore", 4, 1), ("xtag", 4, 3), ("xcounted", 2, 3), ("xfactor", 2, 1), ("xpushws", 1, 1), ("xstack", 2, 3)]
+XSLICES_THOROUGH = [("xrestore", 8, 1), ("xtag", 12, 4), ("xcounted", 8, 4), ("xfactor", 8, 1), ("xpushws", 2, 1), ("xstack", 12, 4), ("xws", 12, 3), ("xcore", 12, 4)]
+
+
 def run(ctx):
     quick = ctx.tier == "quick"
     vh = cargo_build()
+    vhx = cargo_build(features="extras", variant="extras")
     maxlen = 3 if quick else 4
     ctx.cov["rule"] = ("grammars: all grammars of the MC_PegGen slices factor/skip/restore/counted/stack/ws (TLC-enumerated) plus seeded "
                        "random grammars; for each, every start rule x every input over (<=4 characters of the grammar's alphabet + one "
@@ -29,7 +34,8 @@ def run(ctx):
     batches = []
     fired = collections.Counter()
     ngrammars = 0
-    for (name, shards, size) in (SLICES_QUICK if quick else SLICES_THOROUGH):
+    plan = [(vh, x) for x in (SLICES_QUICK if quick else SLICES_THOROUGH)] + [(vhx, x) for x in (XSLICES_QUICK if quick else XSLICES_THOROUGH)]
+    for (binp, (name, shards, size)) in plan:
         cases, rs, n = gen_slice(ctx, name, shards, size, 1, jobs=12)
         for r in rs:
             ctx.cov["states"] += r.distinct
@@ -45,7 +51,7 @@ def run(ctx):
             cf = os.path.join(ctx.work, "g_%s_%d.ndjson" % (name, p))
             open(cf, "w").write("\n".join(sub) + "\n")
             out = os.path.join(ctx.work, "st_%s_%d.ndjson" % (name, p))
-            s = run_json([vh, "c05-emit", "--cases", cf, "--maxlen", str(maxlen), "--out", out])
+            s = run_json([binp, "c05-emit", "--cases", cf, "--maxlen", str(maxlen), "--out", out])
             os.remove(cf)
             if s["recomposition_differs_from_optimize"]:
                 ctx.notes.append("model_drift: recomposed pipeline differs from optimize() on %d grammars of slice %s" % (s["recomposition_differs_from_optimize"], name))
@@ -53,9 +59,9 @@ def run(ctx):
             ngrammars += s["grammars"]
             batches.append(out)
     nrand = 6 if quick else 36
-    for i in range(nrand):
+    for i in range(nrand + nrand // 2):
         out = os.path.join(ctx.work, "st_rand_%d.ndjson" % i)
-        s = run_json([vh, "c05-emit", "--seed", str(ctx.seed * 100 + i), "--grammars", "120" if quick else "300",
+        s = run_json([vh if i < nrand else vhx, "c05-emit", "--seed", str(ctx.seed * 100 + i), "--grammars", "120" if quick else "300",
                       "--maxlen", str(maxlen), "--out", out])
         fired.update(s["fired"])
         ngrammars += s["grammars"]
@@ -82,6 +88,7 @@ def run(ctx):
             if per_grammar[(kind, gid)] > 1:
                 continue       # one report per (grammar, pass)
             ctx.violation({"kind": "trace", "spec": "Trace_Opt/PegSemantics", "pass": kind,
+                           "features": "grammar-extras" if rec.get("extras") else "default",
                            "lister_shape": bool(rec.get("lister_shape")) if kind == "list" else False,
                            "grammar": rec["text"], "start": obj.get("start"), "inp": obj.get("inp"),
                            "input": "".join(chr(c) for c in obj.get("inp", [])),
@@ -111,14 +118,15 @@ def run(ctx):
     for p in ("rotate", "skip", "unroll", "concatenate", "factor", "list", "restore_on_err"):
         if not fired.get(p):
             ctx.notes.append("uncovered_pass: %s never changed a grammar in this run" % p)
-    ctx.assumptions += ["inputs are exhaustive only up to length %d over at most 5 characters per grammar" % maxlen,
+    ctx.assumptions += ["both feature sets are run: default and grammar-extras (x-slices; node tags are not compared)",
+                        "inputs are exhaustive only up to length %d over at most 5 characters per grammar" % maxlen,
                         "EvalOp's account of the primitives' stack effects is itself validated against the real VM by C01 (VM(final) = EvalDoc(source)) and C03",
                         "cases whose evaluation diverges on either side of a pass are not compared"]
 
 
 def replay(ctx, path):
-    vh = cargo_build()
     body = json.load(open(path))
+    vh = cargo_build(features="extras", variant="extras") if body.get("features") == "grammar-extras" else cargo_build()
     cf = os.path.join(ctx.work, "g.ndjson")
     open(cf, "w").write(json.dumps({"text": body["grammar"], "g": {}}) + "\n")
     out = os.path.join(ctx.work, "st.ndjson")
